@@ -29,6 +29,12 @@ pub const MODULES: &[ModuleCfg] = &[
         may_use: &["LangId", "ExtType"],
         prelude: false,
     },
+    ModuleCfg {
+        name: "SrcLikely",
+        imports: &["UnicLocale.Gen.Src", "UnicLocale.Model.Likely"],
+        may_use: &["LangId", "LangId.Dir"],
+        prelude: false,
+    },
     // the imperative part: loops, mutation, the subtag iterator
     ModuleCfg {
         name: "SrcParse",
@@ -170,11 +176,26 @@ pub const TARGETS: &[Target] = &[
     t!("Locale.fromParts", "SrcParse", LOCLIB, Some("Locale"), "from_parts", "Option Bytes → Option Bytes → Option Bytes → List Bytes → Option ExtMap → Locale", "UL.Locale.fromParts", &[], "Ops"),
     t!("Locale.intoParts", "SrcParse", LOCLIB, Some("Locale"), "into_parts", "Locale → Option Bytes × Option Bytes × Option Bytes × List Bytes × Bytes", "UL.Locale.intoParts", &[], "Ops"),
     t!("Locale.isMatch", "SrcParse", LOCLIB, Some("Locale"), "matches", "Locale → Locale → Bool → Bool → Bool", "UL.Locale.isMatch", &[], "Ops"),
-    // Stretch items: registered so that the report says precisely why they are not translated
-    // (tuples, `unsafe`, integer packing and table look-ups are outside the subset).
-    t!("Likely.maximize", "Src", LIKELY, None, "maximize", "(stretch: look-ups as parameters)", "UL.Likely.maximize", &[], "Likely"),
-    t!("Likely.minimize", "Src", LIKELY, None, "minimize", "(stretch: look-ups as parameters)", "UL.Likely.minimize", &[], "Likely"),
+    // ---- likely subtags and character direction: the tables are the parameters `T : Tables`, `L : Layout` of the model
+    //      (their content is translated from the compiled crate, `Gen/Tables.lean`); `.unwrap()` and table indexing may
+    //      panic, so these definitions return `Res`
+    t!("Language.isEmpty", "SrcLikely", LANG, Some("Language"), "is_empty", "Option Bytes → Bool", "(fun (l : Option UL.Bytes) => Option.isNone l)", &[], "Likely"),
+    t!("Likely.langFromParts", "SrcLikely", LIKELY, None, "lang_from_parts", "Option Nat × Option Nat × Option Nat → Option (Option Bytes) → Option Bytes → Option Bytes → Res (Option (Option Bytes × Option Bytes × Option Bytes))", "(fun (i : Option Nat × Option Nat × Option Nat) (lang : Option (Option UL.Bytes)) (script region : Option UL.Bytes) => match (lang.orElse fun _ => i.1.map fun s => some (UL.unpack s)) with | some l => UL.Res.ok (some (l, script.orElse (fun _ => i.2.1.map UL.unpack), region.orElse (fun _ => i.2.2.map UL.unpack))) | none => UL.Res.panic)", &[], "Likely"),
+    t!("Likely.maximize", "SrcLikely", LIKELY, None, "maximize", "Tables → Option Bytes → Option Bytes → Option Bytes → Res (Option (Option Bytes × Option Bytes × Option Bytes))", "UL.Likely.maximize", &[], "Likely"),
+    t!("Likely.minimize", "SrcLikely", LIKELY, None, "minimize", "Tables → Option Bytes → Option Bytes → Option Bytes → Res (Option (Option Bytes × Option Bytes × Option Bytes))", "UL.Likely.minimize", &[], "Likely"),
+    t!("LangId.maximize", "SrcLikely", LIB, Some("LanguageIdentifier"), "maximize", "Tables → LangId → Res (LangId × Bool)", "UL.LangId.maximize", &[], "Likely"),
+    t!("LangId.minimize", "SrcLikely", LIB, Some("LanguageIdentifier"), "minimize", "Tables → LangId → Res (LangId × Bool)", "UL.LangId.minimize", &[], "Likely"),
+    t!("LangId.direction", "SrcLikely", LIB, Some("LanguageIdentifier"), "character_direction", "Tables → Layout → LangId → Res LangId.Dir", "(UL.LangId.direction true)", &[], "Likely"),
+    t!("LangId.directionNoLikely", "SrcLikely", LIB, Some("LanguageIdentifier"), "character_direction", "Layout → LangId → Res LangId.Dir", "(fun L x => UL.LangId.direction false ⟨#[], #[], #[], #[], #[], #[]⟩ L x)", &[], "Likely"),
 ];
+
+/// Cargo features that are on when a target is translated (default: `likelysubtags` on, as in the harness build).
+pub fn features_of(lean: &str) -> Vec<String> {
+    match lean {
+        "LangId.directionNoLikely" => vec![],
+        _ => vec!["likelysubtags".to_string()],
+    }
+}
 
 /// Files that are parsed (targets, and the definitions of the types they mention).
 pub const FILES: &[&str] = &[
@@ -255,12 +276,35 @@ pub struct EnumCfg {
     pub variants: &'static [(&'static str, &'static str, usize)],
 }
 
-pub const ENUMS: &[EnumCfg] = &[EnumCfg {
-    rust: "ExtensionType",
-    file: EXTMOD,
-    lean: "ExtType",
-    variants: &[("Transform", "transform", 0), ("Unicode", "unicode", 0), ("Private", "priv", 0), ("Other", "other", 1)],
-}];
+pub const ENUMS: &[EnumCfg] = &[
+    EnumCfg {
+        rust: "ExtensionType",
+        file: EXTMOD,
+        lean: "ExtType",
+        variants: &[("Transform", "transform", 0), ("Unicode", "unicode", 0), ("Private", "priv", 0), ("Other", "other", 1)],
+    },
+    EnumCfg {
+        rust: "CharacterDirection",
+        file: LIB,
+        lean: "LangId.Dir",
+        variants: &[("RTL", "rtl", 0), ("LTR", "ltr", 0), ("TTB", "ttb", 0)],
+    },
+];
+
+/// The statics of `likelysubtags::tables` (read from the compiled crate by the table translator, a parameter `T : Tables` of
+/// the model) and the constants of `layout_table` (`L : Layout`): name, Lean term, number of key columns (0 = a plain list).
+pub const TABLES: &[(&str, &str, u32)] = &[
+    ("LANG_ONLY", "T.langOnly", 1),
+    ("LANG_REGION", "T.langRegion", 2),
+    ("LANG_SCRIPT", "T.langScript", 2),
+    ("SCRIPT_REGION", "T.scriptRegion", 2),
+    ("SCRIPT_ONLY", "T.scriptOnly", 1),
+    ("REGION_ONLY", "T.regionOnly", 1),
+    ("SCRIPTS_CHARACTER_DIRECTION_LTR", "L.ltr", 0),
+    ("SCRIPTS_CHARACTER_DIRECTION_RTL", "L.rtl", 0),
+    ("SCRIPTS_CHARACTER_DIRECTION_TTB", "L.ttb", 0),
+    ("LANGS_CHARACTER_DIRECTION_RTL", "L.rtlLangs", 0),
+];
 
 /// `ParserError` (one enum per crate, `<crate>/src/parser/errors.rs`): unit variant -> `UL.Err`.
 pub const ERROR_VARIANTS: &[(&str, &str)] = &[
